@@ -559,8 +559,15 @@ func script(sc *msSc, id string) cliOp {
 	return cliOp{}
 }
 
-func TestVerif_C11_MessageSender(t *testing.T) {
-	verifsim.RunCheck(t, verifsim.Check[msSc]{
+func TestVerif_C11_MessageSender(t *testing.T) { verifsim.RunCheck(t, c11MessageSenderCheck()) }
+
+// the same generator and oracle driven by Go's coverage-guided fuzzer (thorough tier)
+func FuzzVerif_C11_MessageSender(f *testing.F) {
+	verifsim.RunFuzz(f, c11MessageSenderCheck(), "TestVerif_C11_MessageSender")
+}
+
+func c11MessageSenderCheck() verifsim.Check[msSc] {
+	return verifsim.Check[msSc]{
 		Property: "C11", Part: "message-sender",
 		Rule: "rapid: 1-6 client goroutines x 1-4 SendRequest/SendMessage calls to 3 peers at drawn virtual instants, optional cancellation instants, OnDisconnect notifications, failing NewStream calls; each peer is an honest " +
 			"scripted responder that echoes the request's unique id after a drawn delay (0-25 s, i.e. also after the 10 s read timeout: a late reply), resets, closes, writes garbage / an oversize length prefix / a partial frame, or stays silent, " +
@@ -614,7 +621,7 @@ func TestVerif_C11_MessageSender(t *testing.T) {
 			return sc
 		},
 		Run: func(t *testing.T, sc msSc) verifsim.Result { return runMS(t, &sc) },
-	})
+	}
 }
 
 var _ = io.EOF
